@@ -60,6 +60,7 @@ PROPS = {
                 'prefix; non-trivial = at least one rolled-back build and one committed build in the trace',
     },
     'C03': {
+        'fslog': True,
         'mc_quick': ['MC_quick_clean.cfg'], 'mc_thorough': [('MC_tiny.cfg', 600)],
         'title': 'Foreign files',
         'units': [('swap', 1200, 15000), ('subcache', 400, 5000), ('foreign', 1500, 30000), ('forcrash', 1500, 30000), ('clean', 400, 8000),
@@ -193,6 +194,7 @@ PROPS = {
                                                          'Conc_Ds.cfg', 'Conc_E.cfg')], 'sim': None,
         'title': 'Thread safety',
         'thread_units': (150, 1500, 10, 0, 3, 12),   # base histories q/t, single preemptions per par q/t (0 = all), pairs q/t
+        'full_pairs': (12, 150),                     # two-thread histories whose (k1, k2) preemption pairs are all enumerated
         'units': [('regress', 0, 0)],
         'owned': set(CLAUSE_OWNER) | {'NoDeadlock'},
         'nontrivial': lambda st, sc: any(x.get('s') == 'par' and (x.get('preempt') or x.get('rseed') is not None)
